@@ -11,7 +11,7 @@ ASSUMPTIONS = [
     'the reference interpreter below (plain generators; buffer = identity, parmap = map, groupby = itertools.groupby) is the documented sequential meaning',
     'a groupby group is consumed before the stream advances across a thread (itertools semantics): groups are materialised before buffer/parmap/shuffle',
     'peek(interval=float) is random by design and not generated; with_exc_tb=False so transcripts do not contain file positions',
-    'hangs are the business of C05: a deadlock verdict here is counted as inconclusive, not reported under C03',
+    'a deadlock/horizon verdict of the scheduler while consuming is reported here too (the consumer never receives the sequential meaning); C05 explores hangs in depth',
 ]
 
 # --------------------------------------------------------------------------- element kinds and function menu
@@ -485,8 +485,13 @@ def run_case(spec):
         return run_consume(s, mode, spec.get('k'), is_real=True, src=src)
 
     out = run_sim(scenario, spec['sched'], horizon=600.0, max_steps=200_000)
+    if out.sim.verdict == 'steps':
+        raise Inconclusive('step budget')
     if out.sim.verdict is not None:
-        raise Inconclusive(f'scheduler verdict {out.sim.verdict} (hang: the business of C05)')
+        # consuming the stream must yield the sequential meaning; a consumer that never gets there yields nothing (also C05's business)
+        from vf.core import hang_check
+
+        hang_check(out)
     if out.exc is not None:
         raise Violation('scenario_exception', f'{type(out.exc).__name__}: {out.exc}', signature=['exc', type(out.exc).__name__])
     outs, term, pulled = out.result
